@@ -224,6 +224,8 @@ def enc_history_ops(rng, npk_defs, n_ops, allow_ids=True):
             ids = " ".join("p%d" % rng.randrange(npk_defs) for _ in range(k))
             ops.append(("enc e encode %d %d %s" % (mn, mx, ids)).rstrip())
         ops.append("enc e seq")
+        if allow_ids and rng.random() < 0.3:
+            ops.append("enc e ids")
     return ops
 
 
